@@ -1629,6 +1629,83 @@ fn mode_prefixes(out: &mut Out) {
 	let _ = std::fs::remove_dir_all(&base);
 }
 
+/// The write of the new seed file FAILS (file-size limit: the kernel cuts the write after L bytes
+/// and every further write returns EFBIG — what a full disk or a quota does): change_password /
+/// recover_from_mnemonic run on the real code under RLIMIT_FSIZE = L for L around and inside the
+/// file; afterwards some wallet.seed* file must still open to the original seed with the old or
+/// the new password (an interrupted operation leaves the original seed recoverable).
+fn mode_faults(out: &mut Out) {
+	let base = format!("/tmp/vh_c12_{}_faults", std::process::id());
+	let _ = std::fs::remove_dir_all(&base);
+	std::fs::create_dir_all(&base).unwrap();
+	vharness::scen::init_thread();
+	let node = NodeCtl::new(&base);
+	let mut rng = Prng::new(seed_from_env() ^ 0xfa17);
+	unsafe {
+		libc::signal(libc::SIGXFSZ, libc::SIG_IGN);
+	}
+	let mut id = 0;
+	for op in &["change", "recover_same", "recover_other"] {
+		for seed_len in &[16usize, 32] {
+			for limit in &[0u64, 1, 17, 64, 150, 199, 100_000] {
+				id += 1;
+				let top = format!("{}/f{}", base, id);
+				let dir = seed_dir(&top);
+				std::fs::create_dir_all(&dir).unwrap();
+				let seed0 = rng.bytes(*seed_len);
+				let seed1 = rng.bytes(*seed_len);
+				let (old, new) = ("old pw", "new pw");
+				let scratch = format!("{}/scratch", base);
+				std::fs::write(format!("{}/wallet.seed", dir), make_seed_file(&node, &scratch, &seed0, old)).unwrap();
+				let orig = phrase_of(&seed0);
+				let mut inst = new_lc(&node, &top);
+				let mut lim = libc::rlimit { rlim_cur: 0, rlim_max: 0 };
+				unsafe {
+					libc::getrlimit(libc::RLIMIT_FSIZE, &mut lim);
+					let l2 = libc::rlimit { rlim_cur: *limit as libc::rlim_t, rlim_max: lim.rlim_max };
+					libc::setrlimit(libc::RLIMIT_FSIZE, &l2);
+				}
+				let r = guarded(|| {
+					let lc = inst.lc_provider().unwrap();
+					match *op {
+						"change" => lc.change_password(None, ZeroingString::from(old), ZeroingString::from(new)),
+						"recover_same" => lc.recover_from_mnemonic(ZeroingString::from(orig.as_str()), ZeroingString::from(new)),
+						_ => lc.recover_from_mnemonic(ZeroingString::from(phrase_of(&seed1).as_str()), ZeroingString::from(new)),
+					}
+				});
+				unsafe {
+					libc::setrlimit(libc::RLIMIT_FSIZE, &lim);
+				}
+				let files = list_seed_files(&dir);
+				let mut per_file = vec![];
+				let mut recoverable = false;
+				let mut bad = vec![];
+				for (n, hexc) in &files {
+					let probe = format!("{}/probe", base);
+					let _ = std::fs::remove_dir_all(&probe);
+					std::fs::create_dir_all(seed_dir(&probe)).unwrap();
+					std::fs::copy(format!("{}/{}", dir, n), format!("{}/wallet.seed", seed_dir(&probe))).unwrap();
+					let mut pi = new_lc(&node, &probe);
+					let co = try_open(&mut pi, old, &orig);
+					let cn = try_open(&mut pi, new, &orig);
+					if co == 0 || cn == 0 {
+						recoverable = true;
+					}
+					if co == 2 || cn == 2 {
+						bad.push(format!("opening {} panics", n));
+					}
+					per_file.push(json!([n, hexc.len() / 2, co, cn]));
+				}
+				out.line(&json!({"kind": "fault", "id": id, "op": op, "seed_len": seed_len, "limit": limit,
+					"res": res_code(&r), "res_text": res_text(&r), "files": per_file, "recoverable": recoverable, "bad": bad}));
+				let _ = std::fs::remove_dir_all(&top);
+			}
+		}
+	}
+	drop(node);
+	let _ = std::fs::remove_dir_all(&base);
+}
+
 /// A context record in the layout written before the initial_* fields were masked (no marker
 /// byte, initial_sec_key / initial_sec_nonce as they are) must still be read back correctly
 /// and the transaction must still finalize.
@@ -1713,6 +1790,7 @@ fn main() {
 		"seed" => mode_seed(&mut out),
 		"fileops" => mode_fileops(&mut out),
 		"prefixes" => mode_prefixes(&mut out),
+		"faults" => mode_faults(&mut out),
 		"compat" => mode_compat(&mut out),
 		_ => panic!("unknown mode"),
 	}
